@@ -30,7 +30,9 @@ class Contract:
     prop: str = ""
     trusted_note: str = ""
     may_raise: List[str] = field(default_factory=list)       # exception classes an assumed callee may raise
-    fresh_result: bool = False                               # result is a newly allocated object
+    fresh_result: bool = False                               # result is a newly allocated object (of exactly the declared class)
+    fresh_paths: List[str] = field(default_factory=list)     # "result", "result.metadata": objects allocated during the call (class: any subclass of the static
+                                                             # class); allocated at call sites, and an obligation (`post:fresh:<path>`) of the verified body
     locals_types: Dict[str, str] = field(default_factory=dict)
     frame_check: bool = True
     params: List[str] = field(default_factory=list)         # for contracts of functions without an AST (dataclass __init__)
